@@ -342,6 +342,8 @@ package proj
 //@   ensures [datum_attached] json.datum != nil
 //@   loop 1 `for i, p := range datumDef.towgs84`
 //@     invariant #1 <= len(datumDef.towgs84) && len(json.DatumParams) == len(datumDef.towgs84) && fresh(json.DatumParams) && json != nil
+//@     invariant [copied] forall k int :: 0 <= k && k < #1 ==> json.DatumParams[k] == datumDef.towgs84[k]
+//@   assert [named_datum_takes_the_table_shift] `json.Ellps = datumDef.ellipse` len(json.DatumParams) == len(datumDef.towgs84) && fresh(json.DatumParams) && (forall k int :: 0 <= k && k < len(datumDef.towgs84) ==> json.DatumParams[k] == datumDef.towgs84[k])
 
 //@ func LongLat$1
 //@   prop C09
